@@ -62,8 +62,30 @@ func vfStructureAddrs(b []byte) []uint64 {
 }
 
 // vfMutants enumerates the mutants of a file deterministically (parent and worker agree).
+// focus: nil = the whole file; otherwise ranges [lo,hi) in which every deviation is
+// enumerated, optionally followed by the sentinel {-1,-1} and ranges in which only single
+// bytes are altered (raw or compressed data read by the traversal).
 func vfMutants(b []byte, thorough bool, focus [][2]int) []vfMutant {
 	n := len(b)
+	var byteOnly [][2]int
+	for i, f := range focus {
+		if f[0] == -1 && f[1] == -1 {
+			byteOnly = focus[i+1:]
+			focus = focus[:i:i]
+			if focus == nil {
+				focus = [][2]int{}
+			}
+			break
+		}
+	}
+	inByteOnly := make([]bool, n)
+	for _, f := range byteOnly {
+		for j := f[0]; j < f[1] && j < n; j++ {
+			if j >= 0 {
+				inByteOnly[j] = true
+			}
+		}
+	}
 	interesting := make([]bool, n)
 	// bytes within a window of non-zero content are interesting; long zero runs (unused heap
 	// space) are skipped
@@ -103,6 +125,13 @@ func vfMutants(b []byte, thorough bool, focus [][2]int) []vfMutant {
 	var out []vfMutant
 	for o := 0; o < n; o++ {
 		if !interesting[o] {
+			if inByteOnly[o] {
+				for _, v := range []uint64{0x00, 0x01, 0x7F, 0x80, 0xFF} {
+					if uint64(b[o]) != v {
+						out = append(out, vfMutant{o, 1, v})
+					}
+				}
+			}
 			continue
 		}
 		for _, v := range []uint64{0x00, 0x01, 0x7F, 0x80, 0xFF} {
@@ -418,7 +447,7 @@ func TestVerif_C07(t *testing.T) {
 	}
 	if vosActive {
 		// with exact read masks the cost of a base is the number of bytes read, not its size
-		nCorpus, maxSize = 10, 65536
+		nCorpus, maxSize = 24, 65536
 		if r.Thorough() {
 			nCorpus = 40
 		}
@@ -429,11 +458,15 @@ func TestVerif_C07(t *testing.T) {
 			// greedy feature cover, one file at a time; a file whose traversal reads more than the
 			// byte limit (mostly raw data) is passed over: its cost is the number of bytes read
 			limit := 6 << 10
+			allocLimit := uint64(768 << 10)
+			corpusMutants, mutantBudget := 0, 420000
 			if r.Thorough() {
 				limit = 32 << 10
+				allocLimit = 16 << 20
+				mutantBudget = 6000000
 			}
 			cands := vfCorpusScan(512, maxSize)
-			skipped, nFocused, nFocusMax := 0, 0, 3
+			skipped, nFocused, nFocusMax := 0, 0, 6
 			if r.Thorough() {
 				nFocusMax = 12
 			}
@@ -458,31 +491,71 @@ func TestVerif_C07(t *testing.T) {
 				os.WriteFile(p, one[0].bytes, 0o644)
 				pl := &vos.Plan{Trace: true}
 				vos.SetPlan(p, pl)
+				var m0, m1 runtime.MemStats
+				runtime.ReadMemStats(&m0)
 				vfC07Drive(p)
+				runtime.ReadMemStats(&m1)
 				vos.SetPlan(p, nil)
 				os.Remove(p)
+				// a base whose intact traversal is heavy (large datasets converted element by
+				// element) multiplies that cost by the number of its mutants: passed over
+				if m1.TotalAlloc-m0.TotalAlloc > allocLimit {
+					skipped++
+					continue
+				}
 				cost := 0
 				for _, rg := range vfMergeRanges(pl.Reads, len(one[0].bytes)) {
 					cost += rg[1] - rg[0]
 				}
 				if cost > limit {
-					// too many bytes read (mostly raw data): keep the file only for the headers of
-					// the objects that carry the new features (256-byte windows, at most 3 objects),
-					// at most nFocus such files
+					// too many bytes read (mostly raw or compressed data): every deviation only in
+					// the headers of the objects that carry the new features (256-byte windows, at
+					// most 3 objects) and in the first 64 bytes of every signed structure read;
+					// everywhere else that is read (up to 16 KiB) single bytes only
 					if nFocused >= nFocusMax || len(one[0].focus) == 0 {
 						skipped++
 						continue
 					}
 					nFocused++
 					one[0].name = strings.Replace(one[0].name, "corpus:", "corpus-focus:", 1)
+					full := append([][2]int{}, one[0].focus...)
+					for _, rd := range pl.Reads {
+						if rd[0] < 0 || rd[0]+4 > int64(len(one[0].bytes)) {
+							continue
+						}
+						sig := string(one[0].bytes[rd[0] : rd[0]+4])
+						for _, known := range vfSignatures {
+							if sig == known {
+								full = append(full, [2]int{int(rd[0]), int(rd[0]) + 64})
+							}
+						}
+					}
+					one[0].focus = full
+					if cost <= 16<<10 {
+						one[0].focus = append(append(one[0].focus, [2]int{-1, -1}), vfMergeRanges(pl.Reads, len(one[0].bytes))...)
+					}
 				} else {
 					one[0].focus = nil
 				}
+				// overall budget of the tier: a base that would take the corpus part beyond it is
+				// passed over (cheaper ones further down the greedy order may still fit)
+				nm := len(vfMutants(one[0].bytes, r.Thorough(), func() [][2]int {
+					f := one[0].focus
+					if f == nil {
+						return vfMergeRanges(pl.Reads, len(one[0].bytes))
+					}
+					return f
+				}()))
+				if corpusMutants+nm > mutantBudget {
+					skipped++
+					continue
+				}
+				corpusMutants += nm
 				bases = append(bases, one[0])
 				covered = trial
 				n++
 			}
-			r.Set("corpus_candidates_passed_over_for_reading_too_many_bytes", skipped)
+			r.Set("corpus_candidates_passed_over_as_too_costly", skipped)
 		} else {
 			small, _ := vfCorpusCover(vfCorpusScan(512, maxSize), nCorpus, covered)
 			for i := range small {
@@ -507,6 +580,22 @@ func TestVerif_C07(t *testing.T) {
 		}
 		sort.Strings(cov)
 		r.Set("reader_features_covered_by_corpus_bases", cov)
+	}
+	// synthetic base: compact layout (the writer cannot produce it and the reference files that
+	// hold it are large): superblock 2, version 2 object headers, a root group with two link
+	// messages, a compact int32[6] dataset and a compact fixed-length string[2] dataset
+	{
+		img := vfCompactFile()
+		p := filepath.Join(dir, "compact.h5")
+		os.WriteFile(p, img, 0o644)
+		tr, err := vfDumpFile(p)
+		ok := err == nil && tr != nil && tr.Get("/c") != nil && tr.Get("/s") != nil &&
+			tr.Get("/c").Read != "ERR" && tr.Get("/s").Strings != "ERR"
+		if !ok {
+			r.Fail("synthetic-compact/intact-file-not-read", map[string]any{"error": fmt.Sprint(err), "tree": fmt.Sprint(tr)})
+		} else {
+			bases = append(bases, vfBaseFile{"synth-sb2-compact-datasets", img, tr, nil})
+		}
 	}
 	// synthetic base: a chain of nested old-style groups as the reference library lays them
 	// out (cached symbol-table entries); a deviation near the bottom must not cost more than
@@ -551,7 +640,16 @@ func TestVerif_C07(t *testing.T) {
 			os.Remove(p)
 			read := vfMergeRanges(pl.Reads, len(bases[i].bytes))
 			if bases[i].focus != nil {
-				read = vfIntersectRanges(read, bases[i].focus)
+				var tail [][2]int
+				full := bases[i].focus
+				for k, f := range full {
+					if f[0] == -1 && f[1] == -1 {
+						tail = append([][2]int{}, full[k:]...)
+						full = full[:k]
+						break
+					}
+				}
+				read = append(vfIntersectRanges(read, full), tail...)
 			}
 			bases[i].focus = read
 			if read == nil {
@@ -1055,4 +1153,72 @@ func vfIntersectRanges(a, b [][2]int) [][2]int {
 		}
 	}
 	return out
+}
+
+// vfCompactFile builds a superblock-2 file with version 2 object headers: root group (two
+// link messages) -> "c": int32[6], compact layout; "s": 4-byte fixed strings [2], compact.
+func vfCompactFile() []byte {
+	le := binary.LittleEndian
+	msg := func(typ byte, body []byte) []byte {
+		h := []byte{typ, 0, 0, 0}
+		le.PutUint16(h[1:3], uint16(len(body)))
+		return append(h, body...)
+	}
+	ohdr := func(msgs ...[]byte) []byte {
+		var body []byte
+		for _, m := range msgs {
+			body = append(body, m...)
+		}
+		out := []byte{'O', 'H', 'D', 'R', 2, 0x00, byte(len(body) + 4)}
+		out = append(out, body...)
+		return append(out, 0, 0, 0, 0)
+	}
+	pad8 := func(b []byte) []byte {
+		for len(b)%8 != 0 {
+			b = append(b, 0)
+		}
+		return b
+	}
+	dataspace := func(n uint64) []byte {
+		d := make([]byte, 12)
+		d[0], d[1], d[3] = 2, 1, 1
+		le.PutUint64(d[4:], n)
+		return d
+	}
+	compact := func(data []byte) []byte {
+		l := make([]byte, 4+len(data))
+		l[0], l[1] = 3, 0
+		le.PutUint16(l[2:4], uint16(len(data)))
+		copy(l[4:], data)
+		return l
+	}
+	intType := []byte{0x10, 0x08, 0, 0, 4, 0, 0, 0, 0, 0, 32, 0}
+	strType := []byte{0x13, 0x00, 0, 0, 4, 0, 0, 0}
+	ints := make([]byte, 24)
+	for i := 0; i < 6; i++ {
+		le.PutUint32(ints[4*i:], uint32(i+1))
+	}
+	dsC := pad8(ohdr(msg(1, dataspace(6)), msg(3, intType), msg(8, compact(ints))))
+	dsS := pad8(ohdr(msg(1, dataspace(2)), msg(3, strType), msg(8, compact([]byte("ab\x00\x00cdef")))))
+	link := func(name string, addr uint64) []byte {
+		l := []byte{1, 0x00, byte(len(name))}
+		l = append(l, name...)
+		a := make([]byte, 8)
+		le.PutUint64(a, addr)
+		return append(l, a...)
+	}
+	const rootAddr = 48
+	rootLen := len(pad8(ohdr(msg(6, link("c", 0)), msg(6, link("s", 0)))))
+	cAddr := uint64(rootAddr + rootLen)
+	sAddr := cAddr + uint64(len(dsC))
+	root := pad8(ohdr(msg(6, link("c", cAddr)), msg(6, link("s", sAddr))))
+	sb := make([]byte, 48)
+	copy(sb, "\x89HDF\r\n\x1a\n")
+	sb[8], sb[9], sb[10] = 2, 8, 8
+	le.PutUint64(sb[20:], ^uint64(0))
+	le.PutUint64(sb[36:], rootAddr)
+	file := append(append(append(sb, root...), dsC...), dsS...)
+	file = append(file, make([]byte, 16)...)
+	le.PutUint64(file[28:], uint64(len(file)))
+	return file
 }
